@@ -13,7 +13,7 @@ const SPEC: Spec = Spec {
         "token sequences are bounded in length; the 3-letter word alphabet {0,1,2^32-1} generates trailing zeros, odd/even lengths and full high halves",
         "two formats: the harness's own recorder/replayer (exact token-level control incl. absent or wrong size hints) and serde_json",
     ],
-    bounds_quick: "S +-Dense(S32,3); D1 u32 sequences of length <= 7 x 5 size hints; D2 length <= 5 x all 256 i8 sign tokens x 5 hints; D3 ill-typed elements; J serde_json round trips and JSON texts with trailing zeros",
+    bounds_quick: "S +-Dense(S32,3); D1 u32 sequences of length <= 7 x 5 size hints; D2 length <= 5 x all 256 i8 sign tokens x 5 hints; D3 ill-typed elements; D4 sequences of 63..65, 1000, 262143..262145 and 300001 elements (around the 1 MiB pre-allocation cap) x 3 patterns x 5 hints; J serde_json round trips and JSON texts with trailing zeros",
     bounds_thorough: "S +-Dense(S32,3) + patterns up to 40 digits; D1 length <= 9; D2 length <= 7; D3; J",
     hang_secs: 60,
     probes: None,
@@ -378,6 +378,15 @@ fn ser_value(ctx: &mut Ctx, v: &Int) {
     }
 }
 
+/// value of a BigInt if it is canonical (no trailing zero digit, NoSign iff zero)
+fn int_chk_quiet(b: &BigInt) -> Option<Int> {
+    let (s, d) = b.to_u64_digits();
+    let zero = d.iter().all(|&x| x == 0);
+    if d.last() == Some(&0) || (s == Sign::NoSign) != zero {
+        return None;
+    }
+    Some(Int::new(s == Sign::Minus, Nat::from_digits(&d)))
+}
 fn de_words(ctx: &mut Ctx, w: &[u32], signs: bool) {
     let mag = Nat::from_u32_digits(w);
     for h in HINTS {
@@ -521,6 +530,74 @@ fn body(ctx: &mut Ctx) {
                     ctx.sample(|| format!("(sign, {:x?}) for every i8 sign token x 5 size hints -> BigInt", w));
                 }
             });
+        }
+    }
+    // D4: long sequences, around and beyond the deserializer's pre-allocation cap (1 MiB = 262144 u32 elements)
+    if ctx.space("D4") {
+        let lens: Vec<usize> = tier.pick(vec![63, 64, 65, 1000, 262143, 262144, 262145, 300001], vec![63, 64, 65, 1000, 4097, 262143, 262144, 262145, 300001, 600003]);
+        let mut o = 0u64;
+        for &l in &lens {
+            for pat in 0..3 {
+                let take = ctx.mine(o);
+                o += 1;
+                if !take {
+                    continue;
+                }
+                let mut st = 0xfeed_beef_0000_0001u64 ^ l as u64;
+                let mut w: Vec<u32> = match pat {
+                    0 => (0..l).map(|_| (alpha::lcg(&mut st) >> 32) as u32).collect(),
+                    1 => vec![u32::MAX; l],
+                    _ => {
+                        let mut v: Vec<u32> = (0..l).map(|_| (alpha::lcg(&mut st) >> 32) as u32).collect();
+                        for x in v.iter_mut().skip(l - l / 3) {
+                            *x = 0; // a third of the sequence is redundant trailing zeros
+                        }
+                        v
+                    }
+                };
+                if pat == 0 {
+                    w[l - 1] |= 1;
+                }
+                let mag = Nat::from_u32_digits(&w);
+                for h in HINTS {
+                    for declared in [Some(w.len()), None] {
+                        ctx.case();
+                        ctx.nontrivial(1);
+                        let toks = seq_tokens(&w, declared);
+                        let id = format!("len={} pattern={} hint={:?} declared={:?}", l, pat, h, declared);
+                        let args = || vec![id.clone()];
+                        let r = call(ctx, || replay::<BigUint>(&toks, h).map(|y| nat_of(&y) == mag));
+                        ctx.compared(1);
+                        if r != Out::Ret(Ok(true)) {
+                            ctx.viol(format!("deserialize long BigUint {}", id), "long u32 sequence not deserialized to the value it denotes", args(), "the denoted value".into(), format!("{:?}", r.map_dbg()));
+                        }
+                        if h == Hint::Exact || h == Hint::Max {
+                            for sg in [-1i8, 1] {
+                                let mut t = vec![Tok::Tuple(2), Tok::I8(sg)];
+                                t.extend(toks.clone());
+                                t.push(Tok::TupleEnd);
+                                let want = if mag.is_zero() { Int::zero() } else { Int::new(sg < 0, mag.clone()) };
+                                let r = call(ctx, || replay::<BigInt>(&t, h).map(|y| int_chk_quiet(&y) == Some(want.clone())));
+                                ctx.compared(1);
+                                if r != Out::Ret(Ok(true)) {
+                                    ctx.viol(format!("deserialize long BigInt sign={} {}", sg, id), "long (sign, sequence) pair not deserialized to the canonical value it denotes", args(), "the denoted value".into(), format!("{:?}", r.map_dbg()));
+                                }
+                            }
+                        }
+                    }
+                }
+                // and back out: the value serializes as exactly its digits
+                if pat != 2 {
+                    let u = bu_nat(&mag);
+                    let want = seq_tokens(&mag.to_u32_digits(), Some(mag.to_u32_digits().len()));
+                    let r = call(ctx, || record(&u).map(|t| t == want));
+                    ctx.compared(1);
+                    if r != Out::Ret(Ok(true)) {
+                        ctx.viol(format!("serialize long BigUint len={} pattern={}", l, pat), "long value not serialized as exactly its base-2^32 digits", vec![], "its digits".into(), format!("{:?}", r.map_dbg()));
+                    }
+                }
+                ctx.sample(|| format!("u32 sequence of {} elements (pattern {}) x 5 size hints x declared/undeclared length", l, pat));
+            }
         }
     }
     if ctx.space("D3") && ctx.mine(0) {
